@@ -1,5 +1,6 @@
 import MxlVerif.Lemmas.C15Metric
 import MxlVerif.Lemmas.C15Rel
+import MxlVerif.Lemmas.C15RelNorm
 import MxlVerif.Generated.C15Loop
 /-!
 C15 — steady-state results are steady states; absence is reported as failure.
@@ -146,6 +147,26 @@ theorem C15_contraction_close {E : Type} [PseudoMetricSpace E] (step : E → E) 
   simp only [Nat.add_sub_cancel, decide_eq_true_eq] at hs
   rw [hr, iter_succ'] at *
   exact close_of_small_step step xs (iter step m y0) c tol hc0 hc1 hcontr hs
+
+/-- ... THE SAME FOR A STATE-DEPENDENT THRESHOLD (the relative criterion's form): small = `dist y2 y1 < tol · w y1` ⇒ the
+reported state lies within `c/(1−c)·tol·w(previous state)` of `xs`. -/
+theorem C15_contraction_close_weighted {E : Type} [PseudoMetricSpace E] (step : E → E) (xs y0 : E) (c tol : ℝ)
+    (w : E → ℝ) (hc0 : 0 ≤ c) (hc1 : c < 1) (hcontr : ∀ z, dist (step z) xs ≤ c * dist z xs)
+    (ok : E → Bool) (n : Nat) (r : E)
+    (h : ssRun Gen.copies Gen.checks step ok
+          (fun y2 y1 => @decide (dist y2 y1 < tol * w y1) (Classical.dec _)) Gen.maxSteps y0 = .steady n r) :
+    dist r xs ≤ c / (1 - c) * (tol * w (iter step (n - 1) y0)) := by
+  obtain ⟨h1, _, hr, hs, _⟩ := C15_success_is_small_step step ok _ y0 n r h
+  obtain ⟨m, rfl⟩ : ∃ m, n = m + 1 := ⟨n - 1, by omega⟩
+  simp only [Nat.add_sub_cancel, decide_eq_true_eq] at hs ⊢
+  rw [hr, iter_succ'] at *
+  exact close_of_small_step step xs (iter step m y0) c _ hc0 hc1 hcontr hs
+
+/-- THE RELATIVE CRITERION IN ABSOLUTE TERMS: the driver's `‖(y2 − y1)/y1‖ < tol` implies `‖y2 − y1‖² ≤ tol²·max_i y1_i²`,
+i.e. it is a criterion of the form above with `w y1 = max_i |y1_i|` — the scale the harness's relative bound uses. -/
+theorem C15_rel_small_is_weighted_abs (tol : Rat) (y2 y1 : List Rat) (h : smallRel tol y2 y1 = true) :
+    normSq (vsub y2 y1) ≤ tol * tol * maxSq y1 :=
+  smallRel_weighted tol y2 y1 h
 
 /-- FAILURE PROPAGATES: when the loop finds no steady state from the state the simulator holds (`NoSteadyState`) or the
 solver gives up (`IntegrationFailure`), `simulate_to_steady_state().get_result()` is that error (never a state) and the scan row is the NaN
